@@ -57,6 +57,11 @@ def c02(tier):
         run.submit(p1_job, "w-chain-n%d" % n, "MC_Def", sc)
     f32_job(run, "C02", cfgs(kinds, [2, 3]), [-2, 0, 1, 3], 6)
     release_job(run, "C02", cfgs(kinds, [1, 3]), [-2, 0, 1, 3], 6, extras=True)
+    inv_ = ["HLNormalizer", "Roc", "BinaryEntropy", "Vsct"]      # (Vst is x itself on a flat window: neither invariant nor always linear)
+    for k_ in (-70, 60):
+        run.submit(p1_job, "w-units-inv-p%d" % k_, "MC_Def", {"prop": "C02", "cfgs": cfgs(inv_, [2, 3]), "alphabet": [-2, 0, 1, 3], "unit": 1, "maxlen": 6, "pow2": k_})
+        run.submit(p1_job, "w-units-lin-p%d" % k_, "MC_Def", {"prop": "C02", "cfgs": cfgs([k for k in kinds if k not in inv_ and k != "Vst"], [2, 3]), "alphabet": [-2, 0, 1, 3],
+                                                             "unit": 1, "maxlen": 6, "pow2": k_, "outpow2": -k_})
     for m in ("Ind_Sma", "Ind_Ext", "Ind_HL", "Ind_Count"):
         run.submit(apalache_job, m)
     norm = ["HLNormalizer", "Roc", "BinaryEntropy", "Vsct", "Vst"]
@@ -120,6 +125,9 @@ def c05(tier):
     run.submit(apalache_job, "Ind_MyRsi")
     f32_job(run, "C05", cfgs(kinds, [1, 2, 3]), [-2, 0, 2], 6)
     release_job(run, "C05", cfgs(kinds, [1, 2, 3]), [-2, 0, 1, 3], 6)
+    # the same definitions in units of 2^-70 and 2^60 (G and L scale with the input, their ratio does not: no absolute threshold)
+    for k_ in (-70, 60):
+        run.submit(p1_job, "rsi-units-p%d" % k_, "MC_Def", {"prop": "C05", "cfgs": cfgs(kinds, [1, 2, 3]), "alphabet": [-2, 0, 1, 3], "unit": 1, "maxlen": 6, "pow2": k_})
     for n, L in ((2, 5), (3, 6)):
         run.submit(p1_job, "rsi-tiny-n%d" % n, "MC_Def", {"prop": "C05", "cfgs": cfgs(kinds, [n]), "alphabet": [0, 1, 2, 3], "unit": 1000000000, "maxlen": L})
         run.submit(p1_job, "rsi-huge-n%d" % n, "MC_Def", {"prop": "C05", "cfgs": cfgs(kinds, [n]), "alphabet": [-2000000, 0, 1000000, 3000000], "unit": 1, "maxlen": L})
@@ -173,6 +181,8 @@ def c06(tier):
     run.submit(p3_stream_job, "trend-sweep", "C06", window_sweep(rnd, kinds, lo=-30, hi=30, ns=[n for n in SWEEP_NS if n <= 66]))
     f32_job(run, "C06", cfgs(kinds, [3, 4]), [-2, 0, 1, 3], 6)
     release_job(run, "C06", cfgs(kinds, [3, 4]), [-2, 0, 1, 3], 6)
+    for k_ in (-70, 60):
+        run.submit(p1_job, "trend-units-p%d" % k_, "MC_Def", {"prop": "C06", "cfgs": cfgs(kinds, [3, 4]), "alphabet": [-2, 0, 1, 3], "unit": 1, "maxlen": 6, "pow2": k_})
     return run.finish(RULE_DEF + "; plus recorded streams at larger N validated on the ghost window (P3)")
 
 @check("C13")
@@ -1002,6 +1012,10 @@ def c09(tier):
         flat = [rnd.randint(-1000, 1000)] * H
         add(cfg, "pair", [rnd.randint(-1000, 1000) for _ in range(500)] + flat, [rnd.randint(-1000, 1000) for _ in range(500)] + flat, tail="constant")
         add(cfg, "pair", [-1000] * 50 + [0] * H, [1000] * 50 + [0] * H, tail="constant")      # approach from below / from above
+        # ... and a long exactly flat run at a non-zero level followed by movement: whatever is suspended while the input is flat
+        # (a normaliser that stops decaying, a stage that stops stepping) must not leave the two pasts apart once it moves again
+        hold = [rnd.choice([777, -1234, 333])] * max(600, 5 * nn)
+        add(cfg, "pair", [rnd.randint(-1000, 1000) for _ in range(300)] + hold + tail, [rnd.randint(-30, 30) for _ in range(300)] + hold + tail)
         stair = [v for _ in range(H // 8 + 1) for v in [rnd.randint(-1000, 1000)] * 8][:H]
         add(cfg, "pair", [rnd.randint(-1000, 1000) for _ in range(500)] + stair, [1000, -1000] * 250 + stair)
         # a loud past followed by a quiet common tail: anything that remembers an extreme of the past (a running maximum
